@@ -95,9 +95,12 @@ def instance(name, desc, params, D=1, qmax=1, maclen=3, free_replay=False, saves
         release_guard="" if free_replay else "/\\ (K.dyn.rep = <<>> \\/ c \\in CtlCodes)")
     bound = ("DynBound == /\\ ~K.dyn.amb /\\ K.dyn.ns <= %d /\\ (K.dyn.rec = <<>> \\/ (K.dyn.rec[1].delay <= %d /\\ "
              "Len(K.dyn.rec[1].items) <= %d))" % (saves, D, maclen))
+    # vacuity probe: one line per transition on which the monitor has followed a replay to its end in its sharp mode
+    probe = ("SyncDone == (mon.replaying /\\ ~mon'.replaying /\\ mon.mode = \"sync\" /\\ mon'.mode = \"sync\" /\\ mon'.err = \"\" "
+             "/\\ ~mon.repLate) => PrintT(<<\"SYNCDONE\", \"1\">>)")
     return {"name": "c19_" + name, "kbd": kbd, "keys": keys, "qmax": qmax,
             "monitor": {"module": "P_C19", "params": params},
-            "constraint": "DynBound", "extra_defs": bound, "extra_guard": "/\\ FALSE",
+            "constraint": "DynBound\nACTION_CONSTRAINT SyncDone", "extra_defs": bound + "\n" + probe, "extra_guard": "/\\ FALSE",
             "extra_actions": env, "extra_next": "\\/ (\\E c \\in EnvKeys : EPress(c) \\/ ERelease(c))",
             "invariants": []}
 
@@ -105,23 +108,53 @@ def instance(name, desc, params, D=1, qmax=1, maclen=3, free_replay=False, saves
 def family(tier):
     A = {"a": K("a")}
     AB = {"a": K("a"), "b": {"t": "chord", "mods": ["lsft"], "k": "b"}}
+    big = tier != "quick"
     F = [
         # record / stop key / play, the size limit (max-presses 1: a press arriving with 3 stored events stops)
-        ("basic_const", make(["rec1", "stop", "play1"], A, "constant", 1), dict(D=1, saves=1, maclen=3)),
+        ("basic_const", make(["rec1", "stop", "play1"], A, "constant", 1), dict(D=1, saves=1, maclen=4 if big else 3)),
         # recorded delays: the gap runs as extra ticks inside one tick_ms call; the record key stops its own macro
-        ("basic_rec", make(["rec1", "play1"], A, "recorded", 2), dict(D=2, saves=1, maclen=3)),
+        ("basic_rec", make(["rec1", "play1"], A, "recorded", 2), dict(D=2, saves=1, maclen=4 if big else 3)),
         # stop with truncation, an output chord
         ("trunc", make(["rec1", "stopt1", "play1"], AB, "constant", 2), dict(D=0, saves=1, maclen=3)),
         # two macros: re-recording, switching the recording by the other record key, nested play, the recursion guard
-        ("nested", make(["rec1", "rec2", "play1", "play2"], A, "constant", 2), dict(D=0, saves=2, maclen=3, held=1)),
+        ("nested", make(["rec1", "rec2", "play1", "play2"], A, "constant", 2),
+         dict(D=0, saves=3 if big else 2, maclen=3, held=1)),
         # a layer-while-held key held across the boundaries
         ("layer", make(["rec1", "stop", "play1"], A, "constant", 2, layer=True), dict(D=0, saves=1, maclen=3)),
         # a time-sensitive mapping replayed with the recorded delays
-        ("taphold", make(["rec1", "play1"], {}, "recorded", 2, th=("c", 3, "a", "lsft")), dict(D=5, saves=1, maclen=3, held=1)),
+        ("taphold", make(["rec1", "play1"], {}, "recorded", 2, th=("c", 3, "a", "lsft")),
+         dict(D=5, saves=1, maclen=3, held=2 if big else 1)),
         # bursts (two unprocessed events) and typing while the replay runs
         ("burst", make(["rec1", "play1"], A, "constant", 2), dict(D=0, saves=1, maclen=2, qmax=2, free_replay=True)),
     ]
+    if big:
+        F += [
+            ("trunc2", make(["rec1", "stopt2", "play1"], A, "recorded", 2), dict(D=1, saves=1, maclen=4)),
+            ("nested_held", make(["rec1", "rec2", "play1", "play2"], A, "constant", 2), dict(D=0, saves=2, maclen=2, held=2)),
+            ("stop_rec", make(["rec1", "stop", "play1"], A, "recorded", 1), dict(D=1, saves=2, maclen=3, held=1)),
+        ]
     return F
+
+
+# model mutants (DESIGN 3.4): the monitor must reject the mutated model on the named instance
+MODEL_MUTANTS = [("dm_trunc", "trunc"), ("dm_limit", "basic_const"), ("dm_norecguard", "nested")]
+
+
+def selftest_model(wd):
+    """Can the monitor say no at the model level?  TLC on L1[Bug] || P_C19 must find a rejection."""
+    out = []
+    fam = {f[0]: f for f in family("quick")}
+    for bug, iname in MODEL_MUTANTS:
+        name, (desc, params), kw = fam[iname]
+        inst = instance("mm_%s" % bug, desc, params, **kw)
+        inst["bug"] = bug
+        inst["edges"] = False
+        r = mc.check_instance(inst, wd, workers=8, timeout=1500, replay=False)
+        out.append({"bug": bug, "instance": iname, "states": r["states"], "rejections": r["n_monerr"]})
+        log("[c19] model mutant %s on %s: %d rejections" % (bug, iname, r["n_monerr"]))
+        if r["n_monerr"] == 0:
+            raise ToolError("model mutant %s is not rejected by P_C19 on instance %s" % (bug, iname))
+    return out
 
 
 # ------------------------------------------------------------------ histories recorded from the real code (binding C)
@@ -357,8 +390,9 @@ def run(tier, seed):
 
     def one(f):
         name, (desc, params), kw = f
-        return name, params, mc.check_instance(instance(name, desc, params, **kw), wd, workers=4 if tier == "quick" else 8,
-                                               timeout=3000)
+        # one directory per instance: the instances of the quick tier run concurrently
+        return name, params, mc.check_instance(instance(name, desc, params, **kw), workdir("c19/" + name),
+                                               workers=4 if tier == "quick" else 8, timeout=3000)
     build_harness()
     cfgdesc.keytable()
     if tier == "quick":
@@ -371,6 +405,10 @@ def run(tier, seed):
         res.add_instance(r)
         log("[c19] %s: %s" % (name, {k: r.get(k) for k in ("states", "generated", "edges", "replayed", "drift", "n_monerr",
                                                          "n_panic", "tlc_wall_s", "wall_s")}))
+        nsync = extract_prints(r["tlc_out"], "SYNCDONE", r["tlc_out"] + ".syncdone")
+        res.extra.setdefault("replays_followed_to_the_end_by_the_monitor", {})[name] = nsync
+        if nsync == 0:
+            raise ToolError("vacuous instance %s: the monitor never followed a replay to its end" % name)
         if len(res.samples) < 3:
             res.samples.append({"instance": name, "kbd": open(r["kbd"]).read(), "states": r["states"], "edges": r.get("edges")})
         ws = flow.witness_scripts(r["monerr_file"], 40) + flow.witness_scripts(r["panic_file"], 10)
@@ -378,6 +416,8 @@ def run(tier, seed):
                   [flow.hist_to_script(d["h"], 80) for d in r.get("drift_samples", [])]
         if scripts:
             witness_jobs.append({"cfg": open(r["kbd"]).read(), "params": params, "tag": "w:" + name, "scripts": scripts})
+    if tier != "quick" and not only:
+        res.extra["model_mutants_rejected"] = selftest_model(wd)
     # ---- binding C: histories beyond the bounds of the instances, recorded from the code, validated by TLC
     directed_jobs, random_jobs = [], []
     if not only or "traces" in only.split(","):
